@@ -418,6 +418,13 @@ def factor_is_dynamic(rcp, prog) -> bool:
     fs = ([st['factor']] if st.get('kind') == 'split' and not isinstance(st.get('factor'), int) else []) + st.get('factors', [])
     pn = set(prog.get('pnames') or [])
     asg = prog.get('assigned')
+    # every name the program text binds anywhere (assignment, for / comprehension / enumerate / tuple targets, with-as): a factor
+    # variable that is rebound -- e.g. `for k in zs:` with k = 0.75 -- is not a positive integer at the next loop
+    if asg is not None and prog.get('src'):
+        try:
+            asg = set(asg) | {n.id for n in pyast.walk(pyast.parse(prog['src'])) if isinstance(n, pyast.Name) and isinstance(n.ctx, pyast.Store)}
+        except SyntaxError:
+            pass
     for f in fs:
         names = _names_of(f)
         if prog.get('pre') or asg is None or not names <= pn or names & set(asg): return True
@@ -426,7 +433,7 @@ def factor_is_dynamic(rcp, prog) -> bool:
 def error_allowed(rcp, prog, args, got) -> bool:
     """errors of the transformed program that a documented precondition of the strategy explains"""
     if got == 'err AssertionError' and assertion_allowed(rcp, prog, args): return True
-    if got in ('err AssertionError', 'err ValueError', 'err TypeError') and factor_is_dynamic(rcp, prog): return True
+    if got in ('err AssertionError', 'err ValueError', 'err TypeError', 'err NotImplementedError') and factor_is_dynamic(rcp, prog): return True
     return False
 
 def assertion_allowed(rcp, prog, args) -> bool:
